@@ -34,13 +34,12 @@ def entryVerdict (k : Kind) (outcome : Nat) (decoderInContract : Bool) : Verdict
     if !decoderInContract then .unjudged
     else if outcome = 3 then .violated else .ok
 
-/-- a failing file operation of the cache while a template is loaded: "a cache problem is never an error for the template
-    user" — an operating-system error (any `OSError`) at any of the cache's file operations must leave `get_template`
-    returning a template that renders what compiling the current source renders; other exceptions (KeyboardInterrupt …)
-    are not the cache's to swallow and are not judged here -/
-def fsFaultVerdict (isOSError propagated renderedCurrentSource : Bool) : Verdict :=
-  if !isOSError then .unjudged
-  else if propagated then .violated
-  else if renderedCurrentSource then .ok else .violated
+/-! Outside the property (documentation, not an oracle): what `get_template` does when the file system itself answers a
+    cache operation with an `OSError` (open / read / creating, writing, closing the temporary / the rename).  The property
+    speaks of entries found on disk by a LATER load (truncated, foreign, stale, left by a writer that died) and of histories
+    of loads, modifications and clears; `BytecodeCache.dump_bytecode` is documented to raise when it cannot store.  The
+    behaviour at those sites is therefore only TRANSCRIBED (Model `fsOpenFails`, `dumpRun` over the handlers read from the
+    source) and pinned as facts about the current code in Props/C27; what IS the property there: after any such fault the
+    next fault-free load renders the current source. -/
 
 end JinjaV.SpecBcCache
